@@ -54,7 +54,12 @@ def ob_level(ctx):
     mk = ctx.mk
     r = mk.seq("v", n, "ACGT")
     unique_at_zero(ctx, V.structure(), r, n)
-    vec = V(st.record.CircularRecord(st.Seq(r), id="vec"))
+    vdata = r
+    if P.get("rotate") == "vector":
+        from .c01 import rot
+
+        vdata = rot(r, P["lo"] + mk.pick("rho", P["hi"] - P["lo"]))  # the vector plasmid as filed at another origin
+    vec = V(st.record.CircularRecord(st.Seq(vdata), id="vec"))
     if not vec.is_valid():
         ctx.witness("vector-rejected")
         return True
@@ -95,6 +100,10 @@ def ob_level(ctx):
 
     occ = [_letters_at(pd, N, p, gN.site) for p in range(N)] + [_letters_at(pd, N, p, gN.rsite) for p in range(N)]
     ctx.assume(Eq(Count(occ), 2))
+    if P.get("rotate") == "product":
+        # the same product plasmid, renumbered from another origin before it is handed to the next level
+        prod = prod >> (P["lo"] + mk.pick("rho", P["hi"] - P["lo"]))
+        pd = sdata(prod.seq)
     nxt = NL(prod)
     v = nxt.is_valid()
     ctx.observe("next-valid", v)
@@ -134,4 +143,15 @@ def obligations(tier, seed):
             obs.append(Ob("%s.%s + %d insert(s) -> %s" % (kit, vname, c, nname), ob_level,
                           dict(kit=kit, vector=vname, next=nname, kind=kind, n=F + 1, inserts=c), samples=3,
                           cost=(F + 1) ** 3 * c, expect_witness=("reached-next-level",)))
+            if c == 1 and tier != "quick" and (kit, vname) in (("cidar", "CIDAREntryVector"), ("ytk", "YTKEntryVector")):
+                n = F + 1
+                for which, total in (("vector", n),):
+                    chunks = 4
+                    step = (total + chunks - 1) // chunks
+                    for lo in range(0, total, step):
+                        hi = min(total, lo + step)
+                        obs.append(Ob("%s.%s + 1 insert -> %s, %s renumbered by %d..%d" % (kit, vname, nname, which, lo, hi - 1),
+                                      ob_level, dict(kit=kit, vector=vname, next=nname, kind=kind, n=n, inserts=1,
+                                                     rotate=which, lo=lo, hi=hi), samples=2, cost=(F + 1) ** 3 * 3,
+                                      group="%s.%s rotated %s" % (kit, vname, which)))
     return obs
